@@ -381,6 +381,14 @@ package common
 //@   ensures (err != nil) == v_wd_err(v)
 //@   ensures err == nil ==> r == v_wd(v)
 
+//@ ufun v_wcred_err(ValI) bool
+//@ ufun v_wcred(ValI) Root32
+//@ func (v Validator) WithdrawalCredentials() (r, err)
+//@   trusted
+//@   opt noalloc
+//@   ensures (err != nil) == v_wcred_err(v)
+//@   ensures err == nil ==> r == v_wcred(v)
+
 // ValidatorSet.Filter keeps, in order, the elements the callback retains (the callback is assumed pure).
 //@ func (vs *ValidatorSet) Filter(retain) err
 //@   property C12
@@ -763,8 +771,11 @@ package common
 // without an intervening write gives the same answer - used by contracts of functions that read before they write)
 //@ ufun reg_valid_err(RegI, int) bool
 //@ ufun reg_valid(RegI, int) bool
-//@ ufun v_exit_err(ValI) bool
-//@ ufun v_exit(ValI) int
+// exit epochs are versioned by the count of validator-field writes so far (n_val_write): a read after a write
+// is a different term from the read before it
+//@ ghost n_val_write int
+//@ ufun v_exit_err(int, ValI) bool
+//@ ufun v_exit(int, ValI) int
 //@ func (r ValidatorRegistry) IsValidIndex(index) (valid, err)
 //@   trusted
 //@   opt noalloc
@@ -773,8 +784,50 @@ package common
 //@ func (v Validator) ExitEpoch() (r, err)
 //@   trusted
 //@   opt noalloc
-//@   ensures (err != nil) == v_exit_err(v)
-//@   ensures err == nil ==> r == v_exit(v)
+//@   ensures (err != nil) == v_exit_err(n_val_write, v)
+//@   ensures err == nil ==> r == v_exit(n_val_write, v)
+
+// ---------------------------------------------------------------- registry iteration and validator writes (C01, C02)
+// validators.Iter() hands back a "next" function: its calls follow validatorIterNext (assumed), whose first
+// parameter is the function value's identity; only the most recently created iterator may be advanced
+// (a call on an older one fails the "live" precondition instead of being mis-modelled).
+//@ ghost n_viter int
+//@ ghost viter_pos int
+//@ ghost viter_reg RegI
+//@ ufun reg_len(RegI) int
+//@ axiom reg_len_nonneg [manual]: forall r RegI :: {reg_len(r)} reg_len(r) >= 0
+//@ func (r ValidatorRegistry) Iter() next
+//@   trusted
+//@   opt returns_contract=validatorIterNext
+//@   assigns ghost(n_viter), ghost(viter_pos), ghost(viter_reg)
+//@   ensures n_viter == old(n_viter) + 1 && fnid(next) == n_viter && viter_pos == 0 && viter_reg == r
+//@ func validatorIterNext(self) (val, ok, err)
+//@   trusted
+//@   requires live: self == n_viter
+//@   assigns ghost(viter_pos)
+//@   ensures err == nil ==> ok == (old(viter_pos) < reg_len(viter_reg))
+//@   ensures err == nil && ok ==> val != nil && val == reg_val(viter_reg, old(viter_pos)) && viter_pos == old(viter_pos) + 1
+//@   ensures !(err == nil && ok) ==> viter_pos == old(viter_pos)
+// writes of a validator's exit and withdrawable epochs, recorded
+//@ ghost n_set_exit int
+//@ ghost set_exit_v ValI
+//@ ghost set_exit_val int
+//@ ghost n_set_wd int
+//@ ghost set_wd_v ValI
+//@ ghost set_wd_val int
+//@ func (v Validator) SetExitEpoch(ep) err
+//@   trusted
+//@   assigns ghost(n_val_write), ghost(n_set_exit), ghost(set_exit_v), ghost(set_exit_val)
+//@   ensures n_val_write == old(n_val_write) + 1 && n_set_exit == old(n_set_exit) + 1 && set_exit_v == v && set_exit_val == ep
+//@ func (v Validator) SetWithdrawableEpoch(ep) err
+//@   trusted
+//@   assigns ghost(n_val_write), ghost(n_set_wd), ghost(set_wd_v), ghost(set_wd_val)
+//@   ensures n_val_write == old(n_val_write) + 1 && n_set_wd == old(n_set_wd) + 1 && set_wd_v == v && set_wd_val == ep
+// the exit queue (initiate_validator_exit): the latest exit epoch among validators that have one, or the
+// activation-exit epoch of the current epoch when that is later; exq_count counts the exits at an epoch
+//@ defrec exq_max(ver int, reg RegI, i int, base int) int = ite(i <= 0, base, ite(v_exit(ver, reg_val(reg, i - 1)) != FAR_FUTURE_EPOCH && v_exit(ver, reg_val(reg, i - 1)) > exq_max(ver, reg, i - 1, base), v_exit(ver, reg_val(reg, i - 1)), exq_max(ver, reg, i - 1, base)))
+//@ defrec exq_count(ver int, reg RegI, i int, e int) int = ite(i <= 0, 0, exq_count(ver, reg, i - 1, e) + ite(v_exit(ver, reg_val(reg, i - 1)) == e, 1, 0))
+//@ lemma exq_count_zero [C01, induct=i, manual]: forall i int, ver int, reg RegI, e int :: {exq_count(ver, reg, i, e)} (forall k :: {reg_val(reg, k)} 0 <= k && k < i ==> v_exit(ver, reg_val(reg, k)) != e) ==> exq_count(ver, reg, i, e) == 0
 
 
 //@ sort HeaderT = BeaconBlockHeader
@@ -789,6 +842,13 @@ package common
 //@ ufun st_curjust(StateI) CkptT
 //@ ufun st_prevjust_err(StateI) bool
 //@ ufun st_prevjust(StateI) CkptT
+//@ ufun st_fin_err(StateI) bool
+//@ ufun st_fin(StateI) CkptT
+//@ func (s BeaconState) FinalizedCheckpoint() (r, err)
+//@   trusted
+//@   opt noalloc
+//@   ensures (err != nil) == st_fin_err(s)
+//@   ensures err == nil ==> r == st_fin(s)
 //@ func (s BeaconState) CurrentJustifiedCheckpoint() (r, err)
 //@   trusted
 //@   opt noalloc
@@ -922,6 +982,8 @@ package common
 //@ ghost last_set_mix_epoch int
 //@ ghost last_set_mix Root32
 //@ ghost n_hist_update int
+// inactivity-score writes (altair on; the model is in the altair package)
+//@ ghost n_set_score int
 //@ func (s BeaconState) Eth1DataVotes() (r, err)
 //@   trusted
 //@   opt noalloc
@@ -1026,9 +1088,11 @@ package common
 //@   loop 1
 //@     invariant ctx_t == old(ctx_t) ==> currentSlot < slot
 //@   ensures c03_forward: err == nil ==> !st_slot_err(state) && st_slot(state) < slot
+//@   assigns ghost(n_set_score)
 //@   assigns ghost(n_eth1_reset), ghost(n_slash_reset), ghost(last_slash_reset), ghost(n_set_mix), ghost(last_set_mix_epoch), ghost(last_set_mix), ghost(n_hist_update)
 //@   assigns ghost(n_set_lhdr), ghost(set_lhdr)
 //@   assigns ghost(n_set_prevjust), ghost(set_prevjust), ghost(n_set_curjust), ghost(set_curjust), ghost(n_set_fin), ghost(set_fin), ghost(n_set_jbits), ghost(set_jbits)
+//@   assigns ghost(n_viter), ghost(viter_pos), ghost(viter_reg), ghost(n_val_write), ghost(n_set_exit), ghost(set_exit_v), ghost(set_exit_val), ghost(n_set_wd), ghost(set_wd_v), ghost(set_wd_val)
 
 //@ func StateTransition(ctx, spec, epc, state, benv, validateResult) err
 //@   property C18
@@ -1045,10 +1109,12 @@ package common
 //@     invariant ctx_t >= old(ctx_t) && (old(ctx_seen) || !ctx_seen)
 //@     invariant ctx_t > old(ctx_t) ==> !ctx_cancelled(ctx, old(ctx_t))
 //@   assigns ghost(n_eng_notify), ghost(n_set_exec_header)
+//@   assigns ghost(n_set_score)
 //@   assigns ghost(n_eth1_reset), ghost(n_slash_reset), ghost(last_slash_reset), ghost(n_set_mix), ghost(last_set_mix_epoch), ghost(last_set_mix), ghost(n_hist_update)
 //@   assigns ghost(n_set_mix), ghost(last_set_mix_epoch), ghost(last_set_mix)
 //@   assigns ghost(n_set_lhdr), ghost(set_lhdr)
 //@   assigns ghost(n_set_prevjust), ghost(set_prevjust), ghost(n_set_curjust), ghost(set_curjust), ghost(n_set_fin), ghost(set_fin), ghost(n_set_jbits), ghost(set_jbits)
+//@   assigns ghost(n_viter), ghost(viter_pos), ghost(viter_reg), ghost(n_val_write), ghost(n_set_exit), ghost(set_exit_v), ghost(set_exit_val), ghost(n_set_wd), ghost(set_wd_v), ghost(set_wd_val)
 
 //@ func PostSlotTransition(ctx, spec, epc, state, benv, validateResult) err
 //@   property C18 C03
@@ -1070,5 +1136,6 @@ package common
 //@   ensures c03_signature: old(benv != nil && epc != nil && epc.ValidatorPubkeyCache != nil && (forall r PcPtr :: {pctrig(r)} pctrig(r) && alloc(r) ==> pc_local(r.pub2idx, r.idx2pub, r.trustedParentCount) && pc_chain(r.parent, r, r.trustedParentCount, r.parent.trustedParentCount, len(r.parent.idx2pub))) && (forall r PcPtr :: {held(r.rwLock)} held(r.rwLock) == 0)) && validateResult && err == nil ==> (exists pk Pub48T :: block_sig_ok(old(benv.ProposerIndex), epc_proposer(epc, old(benv.Slot)), old(benv.ForkDigest), old(benv.BlockRoot), old(benv.Signature), pk, DOMAIN_BEACON_PROPOSER, st_forkdata(state).CurrentVersion, st_gvr(state)))
 //@   assigns ghost(n_set_mix), ghost(last_set_mix_epoch), ghost(last_set_mix)
 //@   assigns ghost(n_set_lhdr), ghost(set_lhdr)
+//@   assigns ghost(n_viter), ghost(viter_pos), ghost(viter_reg), ghost(n_val_write), ghost(n_set_exit), ghost(set_exit_v), ghost(set_exit_val), ghost(n_set_wd), ghost(set_wd_v), ghost(set_wd_val)
 
 // END C18 generated
